@@ -104,6 +104,11 @@ def generate(seed, tier, index):
                              rich=rs.chance(0.3), spec=spec)
     if highrate:
         e0 = C.rerender_plain({"phys": {"spec": spec, "sp": sp_h, "kind": "tauleap"}})
+    scale = "species" if index % 20 == 7 else ("cells4k" if index % 170 == 33 else None)
+    if scale and not giant and not highrate:
+        e0 = C.scale_entry(rs.sub("scale"), ru, rk, kind, scale, steps=(200, 400))
+    else:
+        scale = None
     nruns = rf.randint(3, 6) if kind == "gillespie" else rf.randint(2, 5)
     scripts = []
     eps = []
@@ -129,7 +134,7 @@ def generate(seed, tier, index):
                        "warm": True})
     return {"format": 1, "property": ID, "seed": seed, "tier": tier, "index": index, "build": "plain",
             "scripts": scripts, "lifetimes": [{"pyseed": 1, "episodes": eps}],
-            "meta": {"kind": kind, "nruns": nruns, "warm": warm is not None, "giant": giant, "highrate": highrate}}
+            "meta": {"kind": kind, "nruns": nruns, "warm": warm is not None, "giant": giant, "highrate": highrate, "scale": scale}}
 
 
 # ------------------------------------------------------------------------------------------------ static event table
@@ -413,6 +418,8 @@ def check(case, results):
         stats["count_above_2^31_in_a_cell"] = 1
     if case["meta"].get("highrate"):
         stats["firings_per_draw_above_1000"] = 1
+    if case["meta"].get("scale"):
+        stats["scale_" + case["meta"]["scale"]] = 1
     ctx = {"class": "violation", "lifetime": 0, "episode": None}
     if kind == "gillespie" and not viol:
         w = np.array(acc["w"])
